@@ -49,7 +49,7 @@ def cases(tier, rng, dist):
 def run(c):
     p = [Fraction(x) for x in c["p"]]
     m = [[Fraction(v) for v in r] for r in c["distr"]]
-    pv = np.array([float(x) for x in p]); d = np.array([[float(v) for v in r] for r in m])
+    pv = interned(np.array([float(x) for x in p])); d = interned(np.array([[float(v) for v in r] for r in m]))
     pv0, d0 = pv.copy(), d.copy()
     r = guarded(lambda: [float(v) for v in NPC.fwer_minp(pv, d, make_comb(c["comb"]), plus1=c["plus1"])])
     unmod = bool((pv == pv0).all() and (d == d0).all())
